@@ -277,7 +277,17 @@ def denormalise(field: str) -> str:
 
 def modes_sweep(n: int, seed: int) -> Tuple[Dict[str, Any], List[Dict[str, Any]]]:
     rnd = random.Random(seed * 104729 + 5)
-    cases = []
+    # always: listings in which addresses repeat (several sections / archive members restart at 0), with equal and with
+    # different instruction text at the repeated address, and a pattern that can match the empty sequence
+    cases = [
+        ({"pattern": ["push"]}, [("0", "push", ["%rbp"]), ("1", "ret", [""]), ("0", "push", ["%rbx"]), ("1", "ret", [""])]),
+        ({"pattern": ["push"]}, [("0", "push", ["%rbp"]), ("1", "ret", [""]), ("0", "push", ["%rbp"]), ("1", "ret", [""])]),
+        ({"pattern": ["call", "test"]}, [("1", "call", ["30"]), ("6", "test", ["%eax", "%eax"]), ("0", "nop", [""]), ("1", "call", ["30"]),
+                                          ("6", "test", ["%eax", "%eax"])]),
+        ({"pattern": [{"nop": {"times": {"min": 0, "max": 3}}}]}, [("10", "push", ["%rbp"]), ("11", "nop", [""]), ("12", "nop", [""]), ("13", "ret", [""])]),
+        ({"pattern": [{"call": {"times": {"min": 0, "max": 2}}}]}, [("10", "push", ["%rbp"]), ("11", "ret", [""])]),
+        ({"pattern": ["ret"]}, [("ff8", "ret", [""]), ("ffd", "nop", [""]), ("1004", "ret", [""]), ("1009", "ret", [""])]),
+    ]
     for _ in range(n):
         rule = gen_rule(rnd)
         recs = gen_records(rnd, rule)
@@ -447,6 +457,26 @@ def undefined_macro_sweep() -> Tuple[Dict[str, Any], List[Dict[str, Any]]]:
         "inside-or": ["@m", {"$or": ["@undef", "nop"]}],
     }
     jobs, ids = [], []
+    # the supplied definitions are NOT used by the rule at all (only the undefined name is referenced); names that are not
+    # identifiers (typos with '-' or '.'); a definition whose own name lacks '@' and is never used
+    for pid, pat in positions.items():
+        unused = [x for x in pat if x != "@m"] or ["nop"]
+        for where in ("rule", "file"):
+            rule = {"pattern": unused}
+            docs = []
+            if where == "rule":
+                rule["macros"] = defs
+            else:
+                docs = [{"macros": defs}]
+            jobs.append({"kind": "compile", "rule": rule, "macros_files": docs})
+            ids.append((pid + ":definitions-unused", "as-is", where, rule, docs))
+    for nm in ("@any-shift", "@regs.src", "@a b"):
+        rule = {"macros": defs, "pattern": ["@m", {"mov": [nm, "rax"]}]}
+        jobs.append({"kind": "compile", "rule": rule})
+        ids.append((f"odd-name:{nm}", "as-is", "rule", rule, []))
+    rule = {"macros": [{"name": "shifts", "pattern": "shl"}], "pattern": ["nop"]}
+    jobs.append({"kind": "compile", "rule": rule})
+    ids.append(("definition-name-without-@-unused", "as-is", "rule", rule, []))
     for pid, pat in positions.items():
         for order in ("as-is", "reversed"):
             ds = defs if order == "as-is" else list(reversed(defs))
@@ -509,6 +539,9 @@ def history_pool() -> List[Dict[str, Any]]:
         {"rule": {"macros": [{"name": "@p", "pattern": "pop"}], "pattern": ["@p"]}, "listing": L2},
         {"rule": {"macros": [{"name": "@p", "pattern": "ret"}], "pattern": ["@p"]}, "listing": L1},
         {"rule": {"config": {"sections": [".text"]}, "pattern": ["ret"]}, "listing": L1},
+        # `config:` present but empty (None) and an empty mapping: whatever the operation does, it does it in every history
+        {"rule": {"config": None, "pattern": [{"mov": ["rax"]}]}, "listing": L2},
+        {"rule": {"config": {}, "pattern": [{"mov": ["rax"]}]}, "listing": L2},
     ]
     modes = [["bool", "first_find", False], ["matched_addrs_list", "all_finds", True]]
     return [dict(p, kind="mop", modes=modes) for p in pool]
@@ -539,7 +572,7 @@ def history_sweep(n: int, seed: int) -> Tuple[Dict[str, Any], List[Dict[str, Any
                 break
     return {"history_sweep": {"histories": len(seqs), "pool": len(pool),
                               "bound": "histories of 2-3 operations (all repeats, sampled i,j,i) plus two histories over the whole pool, "
-                                       "14 operations with differing flags / ranges / captures / macros / sections"}}, viol
+                                       "16 operations with differing flags / ranges / captures / macros / sections / empty config"}}, viol
 
 
 # --------------------------------------------------------------------------- parser (C08, C09, C10, C16)
@@ -770,8 +803,26 @@ def cli_sweep(n: int, seed: int) -> Tuple[Dict[str, Any], List[Dict[str, Any]]]:
             runs += 1
             if p.returncode == 0:
                 viol.append({"input": {"argv": argv[3:]}, "real": {"exit": 0}, "disagreement": f"the command {what} exits with status 0"})
+        # operations that fail: the exit status is non-zero whatever kind of error it is
+        bad_rule = os.path.join(t, "bad.yaml")
+        open(bad_rule, "w").write("pattern:\n  - $not: []\n")
+        garbage = os.path.join(t, "garbage.bin")
+        open(garbage, "wb").write(b"not an object file\n")
+        empty_path = os.path.join(t, "nopath")
+        os.makedirs(empty_path, exist_ok=True)
+        env_nopath = dict(env, PATH=empty_path)
+        for argv, what, e in (([py, "-m", "jasm.main", "-p", rp, "-s", os.path.join(t, "missing.s")], "with a missing listing", env),
+                              ([py, "-m", "jasm.main", "-p", bad_rule, "-s", lp], "with a rule whose $not has no argument", env),
+                              ([py, "-m", "jasm.main", "-p", rp, "-b", garbage], "with a binary objdump rejects", env),
+                              ([py, "-m", "jasm.main", "-p", rp, "-b", garbage], "with -b and no objdump on PATH", env_nopath),
+                              ([py, "-m", "jasm.main", "-p", rp, "-s", lp, "--macros", os.path.join(t, "nomacros.yaml")], "with a missing macros file", env)):
+            p = subprocess.run(argv, capture_output=True, text=True, env=e, cwd=t)
+            runs += 1
+            if p.returncode == 0:
+                viol.append({"input": {"argv": argv[3:], "PATH": e.get("PATH")}, "real": {"exit": 0, "output": (p.stderr + p.stdout)[-300:]},
+                             "disagreement": f"the command {what} exits with status 0 although the operation failed"})
     return {"cli_sweep": {"runs": runs, "bound": "4 rules x 4 option combinations through `python -m jasm.main` in a scratch directory, "
-                          "macro files given in non-sorted order, plus 4 malformed command lines"}}, viol
+                          "macro files given in non-sorted order, plus 4 malformed command lines and 5 failing operations"}}, viol
 
 
 # --------------------------------------------------------------------------- binary route = objdump text route (C15)
@@ -916,7 +967,7 @@ def run(prop: str, tier: str, seed: int, force: bool = False) -> Tuple[Dict[str,
             plan.append("history")
         if prop in ("C08", "C09", "C10", "C16", "C06"):
             plan.append("parser")
-        if prop == "C18" or (force and prop in ("C07", "C08", "C10")):
+        if prop == "C18" or (force and prop in ("C07", "C08", "C10", "C16")):
             # which instructions enter the stream also depends on the observers installed by valid_addr_range
             plan.append("validaddr")
         if prop == "C20":
@@ -934,6 +985,7 @@ def run(prop: str, tier: str, seed: int, force: bool = False) -> Tuple[Dict[str,
     standins: List[str] = []
     t0 = time.time()
     for s in plan:
+      try:
         if s == "den":
             c, v = den_sweep(B["den"], seed)
         elif s == "modes":
@@ -960,6 +1012,11 @@ def run(prop: str, tier: str, seed: int, force: bool = False) -> Tuple[Dict[str,
             c, v = instrumentation_identity()
         else:
             continue
+      except replay.HarnessError as e:
+        # the sweep's own use of the public API does not fit this tree: the sweep decided nothing
+        cov.setdefault("harness_errors", []).append(f"{s}: {e}")
+        continue
+      if True:
         cov.update(c)
         for k, d in c.items():
             standins.append(f"{k}: {d.get('bound', '')}")
